@@ -277,22 +277,141 @@ theorem render_expandAll (caps : List QStr) :
     | none => simp [markers_of_minEsc_none hm, fillAll_nil_nums]
     | some n => simp only [markers_of_minEsc hm a, fillAll_cons, ih]
 
-/-- **key lemma (general statement)**: sequential `QString::arg` equals the documented simultaneous
-    substitution whenever each round reads back as it was meant (`MarkerFree`, decidable; its
-    failure is known finding D12) -/
-theorem substitute_eq_specSubst (tmpl : QStr) (caps : List QStr) (h : MarkerFree tmpl caps = true) :
+/-! the single pass of the repaired `Handler::route` (`substitute`) -/
+
+/-- strictly ascending -/
+def Asc : List Nat → Prop
+  | [] => True
+  | x :: l => (∀ y ∈ l, x < y) ∧ Asc l
+
+theorem asc_insertNat (x : Nat) : ∀ {s : List Nat}, Asc s → Asc (insertNat x s)
+  | [], _ => ⟨by simp, trivial⟩
+  | y :: ys, h => by
+    simp only [insertNat]
+    split
+    · next hlt =>
+      refine ⟨?_, h⟩
+      intro z hz
+      simp at hz
+      rcases hz with rfl | hz
+      · exact hlt
+      · exact Nat.lt_trans hlt (h.1 z hz)
+    · split
+      · exact h
+      · next h1 h2 =>
+        refine ⟨?_, asc_insertNat x h.2⟩
+        intro z hz
+        rcases mem_insertNat.1 hz with rfl | hz
+        · omega
+        · exact h.1 z hz
+
+theorem asc_foldr_insertNat (l : List Nat) : Asc (l.foldr insertNat []) := by
+  induction l with
+  | nil => trivial
+  | cons x xs ih => exact asc_insertNat x ih
+
+/-- in a strictly ascending list an element sits at the number of elements below it -/
+theorem idxOf_asc {k : Nat} : ∀ {L : List Nat}, Asc L → k ∈ L → L.idxOf? k = some (L.filter (· < k)).length
+  | [], _, h => by simp at h
+  | y :: ys, ha, h => by
+    by_cases hy : y = k
+    · subst hy
+      have : ys.filter (· < y) = [] := by
+        apply List.filter_eq_nil_iff.2
+        intro z hz; have := ha.1 z hz; simp; omega
+      simp [List.idxOf?_cons, this]
+    · have hin : k ∈ ys := by simpa [Ne.symm hy] using h
+      have hlt : y < k := ha.1 k hin
+      simp [List.idxOf?_cons, hy, idxOf_asc ha.2 hin, hlt]
+
+theorem filter_lt_succ (k : Nat) : ∀ {L : List Nat}, Asc L →
+    (L.filter (· < k + 1)).length = (L.filter (· < k)).length + (if k ∈ L then 1 else 0)
+  | [], _ => by simp
+  | y :: ys, ha => by
+    have ih := filter_lt_succ k ha.2
+    by_cases h1 : y < k
+    · have h2 : y < k + 1 := by omega
+      have h3 : k ≠ y := by omega
+      simp only [List.filter_cons, h1, h2, decide_true, if_true, List.length_cons, ih, List.mem_cons, h3, false_or]
+      omega
+    · by_cases h2 : y = k
+      · subst h2
+        have hnot : y ∉ ys := fun hm => by have := ha.1 y hm; omega
+        simp [ih, hnot]
+      · have h3 : ¬ y < k + 1 := by omega
+        have h4 : k ≠ y := fun e => h2 e.symm
+        simp only [List.filter_cons, h1, h3, decide_false, Bool.false_eq_true, if_false, ih, List.mem_cons, h4, false_or]
+
+/-- `rank` (the counting loop of the C++ code) is the position in the ascending list of the
+    distinct numbers -/
+theorem rank_eq_filter (nums : List Nat) (k : Nat) :
+    rank nums k = ((nums.foldr insertNat []).filter (· < k)).length := by
+  induction k with
+  | zero =>
+    have : ∀ L : List Nat, (L.filter (· < 0)).length = 0 := by intro L; induction L <;> simp_all
+    rw [rank, this]
+  | succ k ih =>
+    rw [rank, ih, filter_lt_succ k (asc_foldr_insertNat nums)]
+    simp [mem_foldr_insertNat]
+
+theorem idxOf_markers {nums : List Nat} {k : Nat} (h : k ∈ nums) :
+    (nums.foldr insertNat []).idxOf? k = some (rank nums k) := by
+  rw [rank_eq_filter]
+  exact idxOf_asc (asc_foldr_insertNat nums) (mem_foldr_insertNat.2 h)
+
+theorem escNums_eq_tokNums (toks : List ArgTok) : escNums toks = tokNums toks := by
+  induction toks with
+  | nil => rfl
+  | cons t l ih => cases t <;> simp [escNums, tokNums, ih]
+
+theorem fillAll_eq_fillTok (nums : List Nat) (caps : List QStr) (toks : List ArgTok) :
+    fillAll nums caps toks = fillTok (fun k => (nums.idxOf? k).bind fun i => caps[i]?) toks := by
+  induction toks with
+  | nil => rfl
+  | cons t l ih =>
+    cases t with
+    | lit c => simp [fillAll, fillTok, ih]
+    | esc k raw =>
+      simp only [fillAll, fillTok, ih]
+      cases nums.idxOf? k with
+      | none => rfl
+      | some i => simp only [Option.bind_some]; rfl
+
+/-- **key lemma, unconditional** (this was finding D12): the substitution `Handler::route` performs
+    is the documented one — capture i replaces every occurrence of the i-th lowest place marker of
+    the TEMPLATE, all at once, whatever the captures contain (`%`, digits, markers, nothing).  For
+    every template and every capture list. -/
+theorem substitute_eq_specSubst (tmpl : QStr) (caps : List QStr) :
     substitute tmpl caps = specSubst tmpl caps := by
-  rw [substitute_eq_render tmpl caps h, render_expandAll]; rfl
+  unfold substitute specSubst
+  rw [fillGo_eq, presentGo_eq, tokGo_eq_argScan, fillAll_eq_fillTok]
+  apply fillTok_congr
+  intro k hk
+  simp only [markers, escNums_eq_tokNums]
+  rw [idxOf_markers hk]
+  rfl
+
+/-- what the code did before the repair (`substituteChained`: one `QString::arg` call per capture)
+    equals the documented substitution exactly when each round reads back as it was meant
+    (`MarkerFree`, decidable) … -/
+theorem substituteChained_eq_specSubst (tmpl : QStr) (caps : List QStr) (h : MarkerFree tmpl caps = true) :
+    substituteChained tmpl caps = specSubst tmpl caps := by
+  rw [substituteChained_eq_render tmpl caps h, render_expandAll]; rfl
+
+/-- … so the repair changes nothing where the old code was right: -/
+theorem substitute_eq_chained (tmpl : QStr) (caps : List QStr) (h : MarkerFree tmpl caps = true) :
+    substitute tmpl caps = substituteChained tmpl caps := by
+  rw [substitute_eq_specSubst, substituteChained_eq_specSubst tmpl caps h]
 
 /-- syntactic form: markers of the template separated, captures plain -/
-theorem substitute_eq_specSubst_of_separated (tmpl : QStr) (caps : List QStr)
+theorem substitute_eq_chained_of_separated (tmpl : QStr) (caps : List QStr)
     (ht : Separated tmpl = true) (hc : ∀ a ∈ caps, Plain a = true) :
-    substitute tmpl caps = specSubst tmpl caps :=
-  substitute_eq_specSubst tmpl caps (markerFree_of_separated ht hc)
+    substitute tmpl caps = substituteChained tmpl caps :=
+  substitute_eq_chained tmpl caps (markerFree_of_separated ht hc)
 
-/-- with at most one capture there is nothing to go wrong -/
-theorem substitute_one (tmpl a : QStr) : substitute tmpl [a] = specSubst tmpl [a] :=
-  substitute_eq_specSubst tmpl [a] (markerFree_one tmpl a)
+/-- with at most one capture the two never differed -/
+theorem substitute_one (tmpl a : QStr) : substitute tmpl [a] = substituteChained tmpl [a] :=
+  substitute_eq_chained tmpl [a] (markerFree_one tmpl a)
 
 /-! ### 1. exactly one terminal action, at the end, iff nobody refused -/
 
@@ -356,72 +475,27 @@ theorem route_terminal_count (m : Matcher) (n : Node) (path : QStr) :
 
 /-! ### 2. the terminal action is the documented one -/
 
-/-- the first firing redirect of the list is marker-free -/
-def redirMF (m : Matcher) (path : QStr) : List (Nat × QStr) → Bool
-  | [] => true
-  | (pat, tmpl) :: rest =>
-    match m pat path with
-    | some mt => MarkerFree tmpl mt.caps
-    | none => redirMF m path rest
-
-mutual
-  /-- the capture list the matcher returns for the redirect that fires on this route (if any) is
-      marker-free for its template -/
-  def routeMF (m : Matcher) : Node → QStr → Bool
-    | .mk _ _ reds subs _, path =>
-      if redirectFires m path reds then redirMF m path reds else subsMF m subs path
-  def subsMF (m : Matcher) : Subs → QStr → Bool
-    | .nil, _ => true
-    | .cons pat child rest, path =>
-      match m pat path with
-      | some mt => routeMF m child (path.drop mt.len)
-      | none => subsMF m rest path
-end
-
-theorem firstRedirect_eq_spec (m : Matcher) (path : QStr) (reds : List (Nat × QStr))
-    (h : redirMF m path reds = true) : firstRedirect m path reds = specRedirect m path reds := by
+theorem firstRedirect_eq_spec (m : Matcher) (path : QStr) (reds : List (Nat × QStr)) :
+    firstRedirect m path reds = specRedirect m path reds := by
   induction reds with
   | nil => rfl
   | cons r l ih =>
     obtain ⟨pat, tmpl⟩ := r
-    simp only [firstRedirect, specRedirect, redirMF] at h ⊢
+    simp only [firstRedirect, specRedirect]
     cases hm : m pat path with
-    | none => simp only [hm] at h; exact ih h
-    | some mt => simp only [hm] at h; simp [substitute_eq_specSubst _ _ h]
+    | none => exact ih
+    | some mt => simp [substitute_eq_specSubst]
 
 mutual
   theorem termOf_eq_spec (m : Matcher) : ∀ (n : Node) (path : QStr) (t : Act),
-      specRoute m n path = some t → routeMF m n path = true → termOf m n path = t
+      specRoute m n path = some t → termOf m n path = t
     | .mk id mws reds subs own, path, t => by
-      rw [specRoute, routeMF, termOf]
-      have hfr := firstRedirect_isSome m path reds
-      by_cases hf : redirectFires m path reds = true
-      · simp only [hf, if_true]
-        intro hs hmf
-        rw [firstRedirect_eq_spec m path reds hmf] at hfr ⊢
-        cases hr : specRedirect m path reds with
-        | none => rw [hr, hf] at hfr; cases hfr
-        | some loc => rw [hr] at hs; simp only at hs ⊢; cases hs; rfl
-      · have hf' : redirectFires m path reds = false := by simpa using hf
-        simp only [hf', Bool.false_eq_true, if_false]
-        have hnone : firstRedirect m path reds = none := by
-          cases hr : firstRedirect m path reds with
-          | none => rfl
-          | some _ => rw [hr, hf'] at hfr; cases hfr
-        have hmf0 : redirMF m path reds = true := by
-          clear hfr hnone
-          induction reds with
-          | nil => rfl
-          | cons r l ih =>
-            obtain ⟨pat, tmpl⟩ := r
-            simp only [redirectFires, List.any_cons, Bool.or_eq_false_iff] at hf'
-            simp only [redirMF]
-            cases hm : m pat path with
-            | none => simp only; exact ih (by simp [redirectFires, hf'.2]) (by simpa [redirectFires] using hf'.2)
-            | some mt => simp [hm] at hf'
-        rw [← firstRedirect_eq_spec m path reds hmf0, hnone]
+      rw [specRoute, termOf, firstRedirect_eq_spec m path reds]
+      cases hr : specRedirect m path reds with
+      | some loc => simp only; intro hs; cases hs; rfl
+      | none =>
         simp only
-        intro hs hmf
+        intro hs
         have := termSubs_eq_spec m subs path
         cases hss : specSubs m subs path
         · rename_i t'
@@ -429,7 +503,7 @@ mutual
           simp only at hs
           subst hs
           simp only at this
-          rw [this t rfl hmf]
+          rw [this t rfl]
         · rw [hss] at hs this
           simp only at hs this
           rw [this]
@@ -437,30 +511,30 @@ mutual
         · rw [hss] at hs; cases hs
   theorem termSubs_eq_spec (m : Matcher) : ∀ (s : Subs) (path : QStr),
       match specSubs m s path with
-      | .found t' => ∀ t, t' = some t → subsMF m s path = true → termSubs m s path = some t
+      | .found t' => ∀ t, t' = some t → termSubs m s path = some t
       | .outside => True
       | .nomatch => termSubs m s path = none
     | .nil, path => by simp [specSubs, termSubs]
     | .cons pat child rest, path => by
-      rw [specSubs, termSubs, subsMF]
+      rw [specSubs, termSubs]
       cases h : m pat path with
       | none => simp only; exact termSubs_eq_spec m rest path
       | some mt =>
         simp only
         by_cases hi : mt.idx = 0
         · simp only [hi, if_true]
-          intro t ht hmf
-          rw [termOf_eq_spec m child _ t ht hmf]
+          intro t ht
+          rw [termOf_eq_spec m child _ t ht]
         · simp [hi]
 end
 
 /-- **C05.2** when no consulted middleware refuses, inside the documented domain (`specRoute`
-    defined) and with marker-free captures for the redirect that fires, routing performs exactly
-    the terminal action the documentation selects -/
+    defined), routing performs exactly the terminal action the documentation selects — for every
+    tree, path and matcher, whatever the captures contain -/
 theorem route_eq_spec (m : Matcher) (n : Node) (path : QStr) (t : Act)
-    (hacc : noRefusal (route m n path) = true) (hspec : specRoute m n path = some t)
-    (hmf : routeMF m n path = true) : terminal (route m n path) = some t := by
-  have ht := termOf_eq_spec m n path t hspec hmf
+    (hacc : noRefusal (route m n path) = true) (hspec : specRoute m n path = some t) :
+    terminal (route m n path) = some t := by
+  have ht := termOf_eq_spec m n path t hspec
   rw [noRefusal_route] at hacc
   rw [route_struct, tailOf, hacc, if_pos rfl, ht]
   exact terminal_append_single _ _ (ht ▸ termOf_terminal m n path)
@@ -633,12 +707,11 @@ theorem errHeaders_nil_ok (n : Nat) : ∀ e ∈ errHeaders [] n, Http.EntryOk e 
 theorem encodeLoc_no_CR (loc : QStr) : CR ∉ encodeLoc loc := fun h => (encodeLoc_clean loc _ h).2.1 rfl
 
 /-- **C05.5 (`holds_run`)**: for every environment and every `route` scenario — every handler
-    tree, matcher, verdict assignment, request target — whose redirect captures are marker-free
-    (`routeMF`; otherwise known finding D12), the predicate evaluated on implementation traces
-    holds on the run of the model.  (Requests that are not accepted, runs in which a middleware
-    refuses and trees outside the documented domain make `holds` true by definition.) -/
-theorem holds_run (env : Env) (sc : RouteScn)
-    (hmf : ∀ r, sc.root = some r → routeMF sc.matcher r (sc.p16.drop 1) = true) :
+    tree, matcher (so: whatever the captures contain), verdict assignment, request target — the
+    predicate evaluated on implementation traces holds on the run of the model.  No hypothesis.
+    (Requests that are not accepted, runs in which a middleware refuses and trees outside the
+    documented domain make `holds` true by definition.) -/
+theorem holds_run (env : Env) (sc : RouteScn) :
     holds env sc (Scenario.run env sc.scenario).log = true := by
   unfold holds
   cases hacc : accepted env sc with
@@ -673,7 +746,7 @@ theorem holds_run (env : Env) (sc : RouteScn)
         | some t' =>
           have hno : noRefusal (route sc.matcher r (sc.p16.drop 1)) = true := by
             rw [← (route_terminal_count _ _ _).2.2.2, hterm]; rfl
-          have ht' := route_eq_spec _ _ _ _ hno hspec (hmf r hroot)
+          have ht' := route_eq_spec _ _ _ _ hno hspec
           have htt : t = t' := by
             have hT : isTerminalAct t = true := by
               cases t with
@@ -714,60 +787,6 @@ theorem holds_run (env : Env) (sc : RouteScn)
             simp only [h2]
             simp [LOCATION, LOC]
 
-/-! ### the side condition in syntactic form -/
-
-mutual
-  /-- every redirect template of the tree has separated markers (`Separated`) -/
-  def treeSeparated : Node → Bool
-    | .mk _ _ reds subs _ => reds.all (fun r => Separated r.2) && subsSeparated subs
-  def subsSeparated : Subs → Bool
-    | .nil => true
-    | .cons _ child rest => treeSeparated child && subsSeparated rest
-end
-
-/-- every captured text the matcher ever returns is `Plain` (no marker inside, not ending in
-    `%` / `%L`, see `plain_iff`) -/
-def PlainMatcher (m : Matcher) : Prop :=
-  ∀ pat subject mt, m pat subject = some mt → ∀ a ∈ mt.caps, Plain a = true
-
-theorem redirMF_of_plain {m : Matcher} (hm : PlainMatcher m) (path : QStr) (reds : List (Nat × QStr))
-    (h : reds.all (fun r => Separated r.2) = true) : redirMF m path reds = true := by
-  induction reds with
-  | nil => rfl
-  | cons r l ih =>
-    obtain ⟨pat, tmpl⟩ := r
-    simp only [List.all_cons, Bool.and_eq_true] at h
-    simp only [redirMF]
-    cases hp : m pat path with
-    | none => exact ih h.2
-    | some mt => exact markerFree_of_separated h.1 (hm pat path mt hp)
-
-mutual
-  theorem routeMF_of_plain {m : Matcher} (hm : PlainMatcher m) : ∀ (n : Node) (path : QStr),
-      treeSeparated n = true → routeMF m n path = true
-    | .mk id mws reds subs own, path => by
-      rw [treeSeparated, routeMF, Bool.and_eq_true]
-      rintro ⟨h1, h2⟩
-      split
-      · exact redirMF_of_plain hm path reds h1
-      · exact subsMF_of_plain hm subs path h2
-  theorem subsMF_of_plain {m : Matcher} (hm : PlainMatcher m) : ∀ (s : Subs) (path : QStr),
-      subsSeparated s = true → subsMF m s path = true
-    | .nil, path => by simp [subsMF]
-    | .cons pat child rest, path => by
-      rw [subsSeparated, subsMF, Bool.and_eq_true]
-      rintro ⟨h1, h2⟩
-      cases m pat path with
-      | none => exact subsMF_of_plain hm rest path h2
-      | some mt => exact routeMF_of_plain hm child _ h1
-end
-
-/-- `holds_run` with the syntactic side condition: separated templates, plain captures -/
-theorem holds_run_of_plain (env : Env) (sc : RouteScn) (hm : PlainMatcher sc.matcher)
-    (ht : ∀ r, sc.root = some r → treeSeparated r = true) :
-    holds env sc (Scenario.run env sc.scenario).log = true :=
-  holds_run env sc fun r hr => routeMF_of_plain hm r _ (ht r hr)
-
 /-! ### non-vacuity and the excluded points (all evaluated in the kernel) -/
 
 namespace Ex
@@ -791,7 +810,6 @@ def path : QStr := [97, 47, 97, 47, 98, 47, 99]
 example : route toyM (root true true) path =
     [.mw 0 true, .mw 10 true, .mw 11 true, .mw 20 true, .redirect 2 [47, 99, 47, 98]] := by decide
 example : specRoute toyM (root true true) path = some (.redirect 2 [47, 99, 47, 98]) := by decide
-example : routeMF toyM (root true true) path = true := by decide
 example : noRefusal (route toyM (root true true) path) = true := by decide
 example : route toyM (root false true) path = [.mw 0 true, .mw 10 true, .mw 11 false] := by decide
 example : chain toyM (root false true) path = [(0, true), (10, true), (11, false), (20, true)] := by decide
@@ -803,30 +821,52 @@ example : route toyM rootU [98, 120, 99] = [.mw 20 true, .process 2 [120, 99]] :
 /-- templates / captures as ASCII -/
 def q (s : List Char) : QStr := s.map fun c => UInt16.ofNat c.toNat
 
--- the hypotheses of `substitute_eq_specSubst_of_separated` are satisfiable …
+/-! the points the chained `arg()` calls got wrong (finding D12 and its relatives, found by the
+    proof of the old, conditional key lemma): `substitute` is the documented substitution on each,
+    `substituteChained` is not -/
+-- a capture that contains a marker
+example : substitute (q ['/','%','1','/','%','2']) [q ['a','%','2'], q ['x']] = q ['/','a','%','2','/','x'] ∧
+    specSubst (q ['/','%','1','/','%','2']) [q ['a','%','2'], q ['x']] = q ['/','a','%','2','/','x'] ∧
+    substituteChained (q ['/','%','1','/','%','2']) [q ['a','%','2'], q ['x']] = q ['/','a','x','/','x'] ∧
+    Plain (q ['a','%','2']) = false := by decide
+-- a capture that ends in '%', followed in the template by a digit
+example : substitute (q ['/','%','1','0','5']) [q ['%'], q ['x']] = q ['/','%','5'] ∧
+    specSubst (q ['/','%','1','0','5']) [q ['%'], q ['x']] = q ['/','%','5'] ∧
+    substituteChained (q ['/','%','1','0','5']) [q ['%'], q ['x']] = q ['/','x'] ∧
+    Separated (q ['/','%','1','0','5']) = true ∧ Plain (q ['%']) = false := by decide
+-- a template marker glued to a pending '%' and a capture that starts with a digit
+example : substitute (q ['/','%','%','1']) [q ['1','2','3'], q ['x']] = q ['/','%','1','2','3'] ∧
+    specSubst (q ['/','%','%','1']) [q ['1','2','3'], q ['x']] = q ['/','%','1','2','3'] ∧
+    substituteChained (q ['/','%','%','1']) [q ['1','2','3'], q ['x']] = q ['/','x','3'] ∧
+    Separated (q ['/','%','%','1']) = false ∧ Plain (q ['1','2','3']) = true := by decide
+-- a one-digit marker directly followed by a lower one
+example : substitute (q ['/','%','2','%','1']) [q ['3'], q ['x']] = q ['/','x','3'] ∧
+    specSubst (q ['/','%','2','%','1']) [q ['3'], q ['x']] = q ['/','x','3'] ∧
+    substituteChained (q ['/','%','2','%','1']) [q ['3'], q ['x']] = q ['/','x'] ∧
+    Separated (q ['/','%','2','%','1']) = false := by decide
+-- an EMPTY capture that lets the template's own text close up into a marker (found while testing
+-- the repaired code against chained arg() on random templates)
+example : substitute (q ['/','%','%','1','5','5']) [[], q ['x']] = q ['/','%','5'] ∧
+    specSubst (q ['/','%','%','1','5','5']) [[], q ['x']] = q ['/','%','5'] ∧
+    substituteChained (q ['/','%','%','1','5','5']) [[], q ['x']] = q ['/','x'] ∧ Plain [] = true := by decide
+-- `MarkerFree` (the exact, semantic condition under which old and new code agree) separates them
+example : MarkerFree (q ['/','%','1','/','%','2']) [q ['a','%','2'], q ['x']] = false ∧
+    MarkerFree (q ['/','%','1','/','%','2']) [q ['a','%'], q ['2']] = true := by decide
+-- the hypotheses of `substitute_eq_chained_of_separated` are satisfiable
 example : Separated (q ['/','%','2','/','%','1']) = true ∧ Separated (q ['/','%','1','%','1']) = true ∧
     Separated (q ['/','n','/','%','L','1','/','%','1','2','x','%']) = true := by decide
 example : Plain (q ['1','2','3']) = true ∧ Plain [] = true ∧ Plain (q ['5','0','%','x','%','%','y']) = true := by decide
--- … and every clause is needed (known finding D12 and its relatives):
--- a capture that contains a marker
-example : substitute (q ['/','%','1','/','%','2']) [q ['a','%','2'], q ['x']] = q ['/','a','x','/','x'] ∧
-    specSubst (q ['/','%','1','/','%','2']) [q ['a','%','2'], q ['x']] = q ['/','a','%','2','/','x'] ∧
-    Plain (q ['a','%','2']) = false := by decide
--- a capture that ends in '%', followed in the template by a digit
-example : substitute (q ['/','%','1','0','5']) [q ['%'], q ['x']] = q ['/','x'] ∧
-    specSubst (q ['/','%','1','0','5']) [q ['%'], q ['x']] = q ['/','%','5'] ∧
-    Separated (q ['/','%','1','0','5']) = true ∧ Plain (q ['%']) = false := by decide
--- a template marker glued to a pending '%' and a capture that starts with a digit
-example : substitute (q ['/','%','%','1']) [q ['1','2','3'], q ['x']] = q ['/','x','3'] ∧
-    specSubst (q ['/','%','%','1']) [q ['1','2','3'], q ['x']] = q ['/','%','1','2','3'] ∧
-    Separated (q ['/','%','%','1']) = false ∧ Plain (q ['1','2','3']) = true := by decide
--- a one-digit marker directly followed by a lower one
-example : substitute (q ['/','%','2','%','1']) [q ['3'], q ['x']] = q ['/','x'] ∧
-    specSubst (q ['/','%','2','%','1']) [q ['3'], q ['x']] = q ['/','x','3'] ∧
-    Separated (q ['/','%','2','%','1']) = false := by decide
--- `MarkerFree` (the exact, semantic condition) separates the cases above
-example : MarkerFree (q ['/','%','1','/','%','2']) [q ['a','%','2'], q ['x']] = false ∧
-    MarkerFree (q ['/','%','1','/','%','2']) [q ['a','%'], q ['2']] = true := by decide
+/-! Qt's marker syntax, kept by the repaired code: `%0` is a marker (number 0), at most two digits
+    are read (`%123` = marker 12, then `3`), `%L1` = `%1`, a lone `%` / `%L` is text, captures
+    beyond the number of distinct markers are ignored, markers beyond the captures stay, and
+    `QChar::digitValue()` accepts the digits of every script (U+0661 ARABIC-INDIC DIGIT ONE) -/
+example : substitute (q ['/','%','0','/','%','1']) [q ['a'], q ['b']] = q ['/','a','/','b'] ∧
+    substitute (q ['/','%','1','2','3']) [q ['a']] = q ['/','a','3'] ∧
+    substitute (q ['/','%','L','1','/','%','1','%']) [q ['a'], q ['b']] = q ['/','a','/','a','%'] ∧
+    substitute (q ['/','%','L','/','%']) [q ['a']] = q ['/','%','L','/','%'] ∧
+    substitute (q ['/','%','5','/','%','3','/','%','7']) [q ['a'], q ['b']] = q ['/','b','/','a','/','%','7'] ∧
+    substitute (q ['/','%','1']) [q ['a'], q ['b']] = q ['/','a'] ∧
+    substitute [47, 37, 0x661, 47, 37, 50] [q ['a'], q ['b']] = q ['/','a','/','b'] := by decide
 
 /-! `holds` on concrete runs of the model (the hypotheses of `holds_run` are satisfiable and the
     predicate is not trivially true there: accepted request, all middleware accept, inside the
@@ -840,13 +880,7 @@ def scPr : RouteScn :=
   { root := some (root true true), matcher := toyM, raw := lit ['/','a','/','z','z'], p16 := [47, 97, 47, 122, 122] }
 def scNoRoot : RouteScn := { scPr with root := none }
 
-example : treeSeparated (root true true) = true := by decide
-example : PlainMatcher (fun _ _ => some ⟨0, 0, [[120, 37, 37, 121], []]⟩) := by
-  intro pat s mt h a ha
-  cases h
-  simp at ha
-  rcases ha with rfl | rfl <;> decide
-example : accepted envX (scEx true) = true ∧ routeMF toyM (root true true) path = true ∧
+example : accepted envX (scEx true) = true ∧
     (terminal (route toyM (root true true) path)).isSome = true ∧
     (specRoute toyM (root true true) path).isSome = true := by decide +kernel
 example : holds envX (scEx true) (Scenario.run envX (scEx true).scenario).log = true := by decide +kernel
@@ -860,21 +894,20 @@ end Ex
 
 /-! ### the `soft` scenarios: a refusing middleware answers itself and leaves the connection open -/
 
-/-- **C05.5 for soft refusals (`holds_run_soft`)**: the same predicate, under the same hypothesis as
+/-- **C05.5 for soft refusals (`holds_run_soft`)**: the same predicate, as unconditionally as
     `holds_run`, on the run of `RouteScn.softScenario`.  Without a refusal the soft scenario is the
     ordinary one (`RouteSoftL.softScenario_eq`); with a refusal there is no terminal action, which
     is C06's business. -/
-theorem holds_run_soft (env : Env) (sc : RouteScn)
-    (hmf : ∀ r, sc.root = some r → routeMF sc.matcher r (sc.p16.drop 1) = true) :
+theorem holds_run_soft (env : Env) (sc : RouteScn) :
     holds env sc (Scenario.run env sc.softScenario).log = true := by
   cases hroot : sc.root with
   | none =>
     rw [RouteSoftL.softScenario_eq_of_noRoot sc hroot]
-    exact holds_run env sc hmf
+    exact holds_run env sc
   | some r =>
     obtain ⟨pre, hpre, ⟨t, ht, hr, _⟩ | ⟨id, hr, _⟩⟩ := route_cases sc.matcher r (sc.p16.drop 1)
     · rw [RouteSoftL.softScenario_eq_of_terminal sc hroot hpre ht hr]
-      exact holds_run env sc hmf
+      exact holds_run env sc
     · unfold holds
       cases hacc : accepted env sc with
       | false => rfl
@@ -885,17 +918,11 @@ theorem holds_run_soft (env : Env) (sc : RouteScn)
         simp only [Bool.not_true, Bool.false_eq_true, if_false, hroot, hacts]
         rw [hr, e, terminal_map_mwAct]
 
-theorem holds_run_soft_of_plain (env : Env) (sc : RouteScn) (hm : PlainMatcher sc.matcher)
-    (ht : ∀ r, sc.root = some r → treeSeparated r = true) :
-    holds env sc (Scenario.run env sc.softScenario).log = true :=
-  holds_run_soft env sc fun r hr => routeMF_of_plain hm r _ (ht r hr)
-
 namespace Ex
 /-- GET /x on a root whose only middleware (7) refuses -/
 def scSoft : RouteScn :=
   { root := some (.mk 0 [(7, false)] [] .nil true), matcher := toyM, raw := lit ['/','x'], p16 := [47, 120] }
 
-example : routeMF toyM (.mk 0 [(7, false)] [] .nil true) [120] = true := by decide
 example : accepted envX scSoft = true ∧
     holds envX scSoft (Scenario.run envX scSoft.softScenario).log = true := by decide +kernel
 -- the soft run differs from the ordinary one: the refuser's own response, no close by the library
